@@ -322,7 +322,7 @@ func keysOf(v []vis) string {
 // ---------------------------------------------------------------------------------------------------
 // generator
 
-var prefixes = [][]byte{nil, {}, []byte("k"), []byte("ab"), {'a', 0xff}, {0xff}, {0xff, 0xff}, {'t', '-', 0x00}}
+var prefixes = [][]byte{nil, {}, []byte("k"), []byte("ab"), {'a', 0xff}, {'k', 0xff, 0xff}, {0xff}, {0xff, 0xff}, {'t', '-', 0x00}}
 
 var sufAlpha = []byte{0x00, 'a', 'b', 0xff}
 
@@ -387,15 +387,21 @@ func GenCase(t *rapid.T, fixtures []string, ns string) Case {
 					k[len(k)-1]--
 					k = append(k, suffix("dsuffix")...)
 				}
-			case 2:
-				if k[len(k)-1] < 0xff {
-					k[len(k)-1]++ // exactly the prefix successor
+			case 2, 3:
+				// the first key above every key of the prefix: drop trailing 0xff bytes, add one to the last
+				// byte left (none exists for an all-0xff prefix); alone or followed by a suffix
+				for len(k) > 0 && k[len(k)-1] == 0xff {
+					k = k[:len(k)-1]
 				}
-			case 3:
-				if k[len(k)-1] < 0xff {
+				if len(k) > 0 {
 					k[len(k)-1]++
-					k = append(k, suffix("dsuffix")...)
+					if rapid.Bool().Draw(t, "dabove-suffix") {
+						k = append(k, suffix("dsuffix")...)
+					}
 				}
+			}
+			if len(k) == 0 {
+				continue
 			}
 			if !bytes.HasPrefix(k, p) {
 				add(k, layer())
